@@ -36,3 +36,228 @@ Section ProtocolP.
     destruct ok; [destruct (um_eval um st1) as [st2 phi]|]; cbn; auto.
   Qed.
 End ProtocolP.
+
+(* ------------------------------------------------------------------------------------------ *)
+(* contracts on the user's model and the invariants they give (C02, C09, C10) *)
+Section Contracts.
+  Variables V Mx Cache Col W E St : Type.
+  Variable um : umodel V Mx St.
+  Variable solve : W -> E -> Mx -> Mx -> option Cache.
+  Variable jaccol : W -> Cache -> Mx -> Col.
+
+  Notation problem := (problem Mx Cache W E St).
+  Notation set_params := (@set_params V Mx Cache W E St um solve).
+  Notation jacobian := (@jacobian V Mx Cache Col W E St um jaccol).
+  Notation jac_cols := (@jac_cols V Mx Cache Col W St um jaccol).
+  Notation params := (@params V Mx Cache W E St um).
+  Notation step := (@step V Mx Cache Col W E St um solve jaccol).
+  Notation run := (@run V Mx Cache Col W E St um solve jaccol).
+
+  (* The trait contract, with failures allowed at every call: a call may fail (transiently or
+     forever), but when it succeeds it answers for the parameters the model holds; only a
+     successful set_params changes the parameters a well-behaved model reports.
+     [Phi a] / [D k a] are the model's basis matrix / k-th derivative matrix at parameters a. *)
+  Record faulty_functional (Phi : V -> Mx) (D : nat -> V -> Mx) : Prop := {
+    ff_set_ok : forall st a st', um_set um st a = (st', true) -> um_params um st' = a;
+    ff_eval : forall st st' r, um_eval um st = (st', r) ->
+                um_params um st' = um_params um st /\
+                (forall f, r = Some f -> f = Phi (um_params um st));
+    ff_deriv : forall st k st' r, um_deriv um st k = (st', r) ->
+                um_params um st' = um_params um st /\
+                (forall d, r = Some d -> d = D k (um_params um st));
+    ff_np : forall st a st' ok, um_set um st a = (st', ok) -> um_nparams um st' = um_nparams um st;
+  }.
+
+  (* C09, first clause: a failed parameter application or a failed evaluation leaves nothing
+     behind that could be attributed to the requested parameters *)
+  Theorem absent_after_failure (p : problem) a :
+    (snd (um_set um (p_st p) a) = false \/
+     snd (um_eval um (fst (um_set um (p_st p) a))) = None) ->
+    p_cached (set_params p a) = None.
+  Proof.
+    intros H. pose proof (set_params_spec um solve p a) as Hs.
+    destruct (um_set um (p_st p) a) as [st1 ok]. cbn [fst snd] in H.
+    destruct ok.
+    - destruct (um_eval um st1) as [st2 phi]. cbn [snd] in H.
+      destruct H as [H|H]; [discriminate|]. subst phi. apply Hs.
+    - apply Hs.
+  Qed.
+
+  (* the answers of the derivative calls one Jacobian request makes, in order; the sequential
+     iteration stops at the first failure *)
+  Fixpoint deriv_trace (st : St) (k n : nat) : list (option Mx) :=
+    match n with
+    | 0 => []
+    | S n' => let '(st1, d) := um_deriv um st k in
+              d :: match d with Some _ => deriv_trace st1 (S k) n' | None => [] end
+    end.
+
+  (* C03/C09: no Jacobian iff some derivative failed; a Jacobian is never partially filled *)
+  Lemma jac_none_iff st w c k n :
+    snd (jac_cols st w c k n) = None <-> In None (deriv_trace st k n).
+  Proof.
+    revert st k. induction n as [|n IH]; intros st k; cbn [Protocol.jac_cols deriv_trace].
+    - cbn. split; [discriminate|tauto].
+    - destruct (um_deriv um st k) as [st1 d]. destruct d as [dk|].
+      + specialize (IH st1 (S k)). destruct (jac_cols st1 w c (S k) n) as [st2 rest]. cbn [snd] in *.
+        destruct rest as [r|].
+        * split; [discriminate|]. intros [H|H]; [discriminate|]. apply IH in H. discriminate.
+        * split; [intros _; right; apply IH; reflexivity | reflexivity].
+      + cbn. split; auto.
+  Qed.
+
+  Lemma jac_some_length st w c k n st' cols :
+    jac_cols st w c k n = (st', Some cols) -> length cols = n.
+  Proof.
+    revert st k st' cols. induction n as [|n IH]; intros st k st' cols; cbn [Protocol.jac_cols].
+    - intros H; inversion H; reflexivity.
+    - destruct (um_deriv um st k) as [st1 d]. destruct d as [dk|]; [|discriminate].
+      destruct (jac_cols st1 w c (S k) n) as [st2 rest] eqn:Hr. destruct rest as [r|]; [|discriminate].
+      intros H; inversion H; subst. cbn. f_equal. eapply IH; eassumption.
+  Qed.
+
+  Lemma jacobian_no_cache (p : problem) : p_cached p = None -> snd (jacobian p) = None.
+  Proof. unfold Protocol.jacobian. intros ->. reflexivity. Qed.
+
+  (* queries never change the problem *)
+  Lemma observe_pure (p : problem) : fst (step p OObserve) = p.
+  Proof. reflexivity. Qed.
+
+  Lemma jacobian_frame (p : problem) :
+    p_Yw (fst (jacobian p)) = p_Yw p /\ p_eps (fst (jacobian p)) = p_eps p /\
+    p_w (fst (jacobian p)) = p_w p /\ p_cached (fst (jacobian p)) = p_cached p.
+  Proof.
+    unfold Protocol.jacobian. destruct (p_cached p) as [c|] eqn:Hc; [|cbn; auto].
+    destruct (jac_cols _ _ _ _ _) as [st1 j]. cbn. auto.
+  Qed.
+
+  (* no history of operations ever touches the data, the threshold or the weights *)
+  Lemma run_frame (p : problem) os :
+    p_Yw (fst (run p os)) = p_Yw p /\ p_eps (fst (run p os)) = p_eps p /\
+    p_w (fst (run p os)) = p_w p.
+  Proof.
+    revert p. induction os as [|o os IH]; intros p; cbn [Protocol.run]; [auto|].
+    destruct (step p o) as [p1 b] eqn:Hs. specialize (IH p1).
+    destruct (run p1 os) as [p2 bs]. cbn [fst] in *.
+    assert (H1 : p_Yw p1 = p_Yw p /\ p_eps p1 = p_eps p /\ p_w p1 = p_w p).
+    { destruct o; cbn [Protocol.step] in Hs.
+      - inversion Hs; subst. apply set_params_frame.
+      - inversion Hs; subst. auto.
+      - destruct (jacobian p) as [p' j] eqn:Hj. inversion Hs; subst.
+        destruct (jacobian_frame p) as (A & B & C & _). rewrite Hj in A, B, C. auto. }
+    destruct IH as (A & B & C). destruct H1 as (A1 & B1 & C1).
+    rewrite A, B, C. auto.
+  Qed.
+
+  Section WithContract.
+    Variables (Phi : V -> Mx) (D : nat -> V -> Mx).
+    Hypothesis FF : faulty_functional Phi D.
+
+    (* whatever is cached belongs to the parameters the problem reports *)
+    Definition coherent (p : problem) : Prop :=
+      forall c, p_cached p = Some c -> Some c = solve (p_w p) (p_eps p) (Phi (params p)) (p_Yw p).
+
+    Lemma coherent_set_params (p : problem) a : coherent (set_params p a).
+    Proof.
+      unfold coherent. intros c Hc.
+      pose proof (set_params_spec um solve p a) as Hs.
+      destruct (set_params_frame um solve p a) as (HY & HE & HW).
+      rewrite HY, HE, HW. unfold Protocol.params.
+      destruct (um_set um (p_st p) a) as [st1 ok] eqn:Hset.
+      destruct ok.
+      - destruct (um_eval um st1) as [st2 phi] eqn:Hev.
+        destruct Hs as [Hst Hca]. rewrite Hst. rewrite Hca in Hc.
+        destruct phi as [f|]; [|discriminate].
+        destruct (ff_eval FF _ Hev) as [Hp Hf].
+        rewrite Hp, <- (Hf f eq_refl). symmetry. exact Hc.
+      - destruct Hs as [_ Hca]. rewrite Hca in Hc. discriminate.
+    Qed.
+
+    Lemma jac_cols_params st w c k n st' j :
+      jac_cols st w c k n = (st', j) -> um_params um st' = um_params um st.
+    Proof.
+      revert st k st' j. induction n as [|n IH]; intros st k st' j; cbn [Protocol.jac_cols].
+      - intros H; inversion H; reflexivity.
+      - destruct (um_deriv um st k) as [st1 d] eqn:Hd.
+        destruct (ff_deriv FF _ _ Hd) as [Hp _].
+        destruct d as [dk|].
+        + destruct (jac_cols st1 w c (S k) n) as [st2 rest] eqn:Hr.
+          intros H; inversion H; subst. rewrite (IH _ _ _ _ Hr). exact Hp.
+        + intros H; inversion H; subst. exact Hp.
+    Qed.
+
+    Lemma coherent_jacobian (p : problem) : coherent p -> coherent (fst (jacobian p)).
+    Proof.
+      unfold Protocol.jacobian. destruct (p_cached p) as [c|] eqn:Hc; [|auto].
+      destruct (jac_cols (p_st p) (p_w p) c 0 (um_nparams um (p_st p))) as [st1 j] eqn:Hj.
+      cbn [fst]. unfold coherent, Protocol.params. cbn [p_cached p_st p_w p_eps p_Yw].
+      intros Hco c' Hc'. rewrite (jac_cols_params _ _ _ _ _ Hj). apply Hco. rewrite Hc. exact Hc'.
+    Qed.
+
+    (* C09, second clause / C02: for every history of updates, queries and Jacobian requests,
+       with failures anywhere, what is present is right for the parameters reported *)
+    Theorem coherent_run (p : problem) os : coherent p -> coherent (fst (run p os)).
+    Proof.
+      revert p. induction os as [|o os IH]; intros p Hp; cbn [Protocol.run]; [exact Hp|].
+      destruct (step p o) as [p1 b] eqn:Hs.
+      destruct (run p1 os) as [p2 bs] eqn:Hr. cbn [fst].
+      assert (Hp1 : coherent p1).
+      { destruct o; cbn [Protocol.step] in Hs.
+        - inversion Hs; subst. apply coherent_set_params.
+        - inversion Hs; subst. exact Hp.
+        - destruct (jacobian p) as [p' j] eqn:Hj. inversion Hs; subst.
+          change p1 with (fst (p1, j)). rewrite <- Hj. apply coherent_jacobian. exact Hp. }
+      specialize (IH p1 Hp1). rewrite Hr in IH. exact IH.
+    Qed.
+
+    (* the Jacobian, when produced, is made of the derivative matrices at the reported
+       parameters and the cached state; it is never partially filled *)
+    Lemma jac_cols_spec st w c k n st' cols :
+      jac_cols st w c k n = (st', Some cols) ->
+      cols = map (fun i => jaccol w c (D i (um_params um st))) (seq k n).
+    Proof.
+      revert st k st' cols. induction n as [|n IH]; intros st k st' cols; cbn [Protocol.jac_cols seq map].
+      - intros H; inversion H; reflexivity.
+      - destruct (um_deriv um st k) as [st1 d] eqn:Hd.
+        destruct (ff_deriv FF _ _ Hd) as [Hp Hdk].
+        destruct d as [dk|]; [|discriminate].
+        destruct (jac_cols st1 w c (S k) n) as [st2 rest] eqn:Hr.
+        destruct rest as [r|]; [|discriminate].
+        intros H; inversion H; subst. rewrite (Hdk dk eq_refl).
+        rewrite (IH _ _ _ _ Hr), Hp. reflexivity.
+    Qed.
+
+    Lemma coherent_after_set (p : problem) a c :
+      p_cached (set_params p a) = Some c ->
+      params (set_params p a) = a /\ Some c = solve (p_w p) (p_eps p) (Phi a) (p_Yw p).
+    Proof.
+      intros Hc. pose proof (set_params_spec um solve p a) as Hs. unfold Protocol.params.
+      destruct (um_set um (p_st p) a) as [st1 ok] eqn:Hset. destruct ok.
+      - destruct (um_eval um st1) as [st2 phi] eqn:Hev. destruct Hs as [Hst Hca].
+        rewrite Hca in Hc. destruct phi as [f|]; [|discriminate].
+        destruct (ff_eval FF _ Hev) as [Hp Hf]. rewrite Hst, Hp, (ff_set_ok FF _ _ Hset).
+        split; [reflexivity|]. rewrite <- (ff_set_ok FF _ _ Hset), <- (Hf f eq_refl). symmetry; exact Hc.
+      - destruct Hs as [_ Hca]. rewrite Hca in Hc. discriminate.
+    Qed.
+
+    (* C10: what a problem holds after parameters a have been applied is a function of
+       (model, data, weights, threshold, a) alone — whatever happened before *)
+    Theorem history_irrelevant (p : problem) os a c :
+      p_cached (set_params (fst (run p os)) a) = Some c ->
+      Some c = solve (p_w p) (p_eps p) (Phi a) (p_Yw p).
+    Proof.
+      intros Hc. destruct (coherent_after_set _ _ Hc) as [_ H].
+      destruct (run_frame p os) as (A & B & C). rewrite A, B, C in H. exact H.
+    Qed.
+
+    Corollary same_as_fresh (p q : problem) os a c c' :
+      p_Yw q = p_Yw p -> p_eps q = p_eps p -> p_w q = p_w p ->
+      p_cached (set_params (fst (run p os)) a) = Some c ->
+      p_cached (set_params q a) = Some c' -> c = c'.
+    Proof.
+      intros HY HE HW Hc Hc'. pose proof (history_irrelevant _ _ _ Hc) as H1.
+      destruct (coherent_after_set _ _ Hc') as [_ H2]. rewrite HY, HE, HW in H2.
+      rewrite <- H1 in H2. inversion H2. reflexivity.
+    Qed.
+  End WithContract.
+End Contracts.
